@@ -1117,6 +1117,11 @@ class Scheduler:
             set_current_scheduler(self)
             self.clear()
 
+            # Drop completion events left over from a previous execution (jobs that were still
+            # running when that execution failed): their jobs no longer belong to this one.
+            while not self.events_queue.empty():
+                self.events_queue.get(block=False)
+
             for executor in self.executors.values():
                 executor.start()
             self._dryrun = dryrun
